@@ -262,7 +262,12 @@ def case_chains(B, cfg):
     if not B.symbolic:
         return
     hierarchical = cfg.get('units') is not None
-    if hierarchical:
+    if hierarchical and cfg.get('filter_posterior'):
+        # the filter posterior lists its population-level entries *first*
+        H = c13.build(B, dict(units=cfg['units'], n_samples=cfg['n_ids'],
+                              times=[2.5, 1.0]))
+        post = H['post']
+    elif hierarchical:
         H = hier.build(B, cfg)
         hl = H['hl']
         n_top = hl.n_parameters(exclude_bottom_level=True)
@@ -320,6 +325,8 @@ def case_chains(B, cfg):
                      'entry %d' % (name, ids[k], c, d, k), sel[c][d],
                      chains[c, d, k])
     # read back
+    if cfg.get('filter_posterior'):
+        return
     if hierarchical:
         # (compute_pointwise_loglikelihood is not available for hierarchical
         # likelihoods in this version: compute_pointwise_ll raises
@@ -549,8 +556,14 @@ def jobs(tier):
     for c in (comps[::4] if q else comps[::2]):
         out.append(('chains', 'case_chains', dict(
             units=c, n_ids=2, n_chains=2, n_draws=2 if q else 3), F))
-    # individual labels that are not in lexicographic order
     U = hier.unit
+    # chains of a filter posterior (population-level entries come first)
+    for c in ([U('gaussian'), U('pooled')], [U('lognormal_nc', 2)],
+              [U('hetero'), U('gaussian_nc')]):
+        out.append(('chains', 'case_chains', dict(
+            units=c, n_ids=2, n_chains=2, n_draws=2, filter_posterior=True),
+            F))
+    # individual labels that are not in lexicographic order
     for c, n_ids, labels in (
             ([U('gaussian'), U('pooled')], 3, ['pat-C', 'pat-A', 'pat-B']),
             ([U('lognormal_nc'), U('hetero')], 2, ['b', 'a']),
@@ -570,7 +583,8 @@ BOUNDS = dict(
           'from the seed (3, 0, 1) under different global generator states '
           'for the three posterior classes; chains with 2 '
           'chains x 2 draws for an individual posterior and a quarter of the '
-          'hierarchical compositions, plus 3 posteriors with unsorted custom '
+          'hierarchical compositions, 3 filter posteriors (population-level '
+          'entries first), plus 3 posteriors with unsorted custom '
           'individual labels and one with 11 default-labelled individuals',
     thorough='a third of the compositions of <= 3 sub-models with dimension '
              '2-3, 1-3 individuals (3 individuals with at most one '
